@@ -121,7 +121,15 @@ def toTerm (t : T) : Nat := if L.isTrue t then 1 else if L.isFalse t then 0 else
 /-- `Term::cmp_information(&self, other: &Bdd)` -/
 def cmpInfo (x : Nat) (t : T) : Bool := (isTV x == L.isTV t) && ((x == 1) == L.isTrue t)
 
-/-- `BddRestrict::restrict`: `self.select(variables).exists(&variablelist)` -/
+/-- `ac.restrict(&var_list)`. CAUTION (found by a coverage run of the harness, not by reading):
+the back-end's own `impl BddRestrict for Bdd { fn restrict … select(..).exists(..) }` is DEAD code -
+biodivine_lib_bdd 0.5.23 has an inherent `Bdd::restrict` (and `var_restrict`), which method
+resolution prefers, so the call runs the library's own `restriction` routine. Its documented
+contract ("a valuation v satisfies the result iff v[variable = value] satisfies the original") is the
+cofactor equation; this definition computes the same function by the shadowed composition
+`select` then `exists` (`Bio.restrict_den` proves the cofactor equation for it), so on a
+function-canonical representation (both instances below) the terms coincide. The assumption about
+the external library therefore INCLUDES "restrict = cofactor". -/
 def restrict (t : T) (vl : List (Nat × Bool)) : T := L.exist (L.select t vl) (vl.map (·.1))
 
 /-- `var_list(&[Bdd])` -/
